@@ -16,8 +16,9 @@ from . import core, passes, impl, project, render
 PROP = 'C10'
 OPS = {'S': 'expand_subcircuits', 'L': 'fill_in_let', 'M': 'fill_in_map', 'A': 'expand_macros'}
 CONFIGS = {
-    'quick': ([('mixed', ('H_X', 'M_X', 'T_X', 'O_X', 2, 3), 70)], 3),
-    'thorough': ([('mixed', ('H_X', 'M_X', 'T_X', 'O_X', 3, 3), 900)], 4),
+    # (name, AstEnum constants, program budget, longest history, number of override dictionaries)
+    'quick': ([('mixed', ('H_X', 'M_X', 'T_X', 'O_X', 2, 3), 60, 3, 4), ('par-calls', ('H_X', 'M_XP', 'T_XP', 'O_XP', 2, 3), 700, 2, 1)], 3),
+    'thorough': ([('mixed', ('H_X', 'M_X', 'T_X', 'O_X', 3, 3), 900, 4, 4), ('par-calls', ('H_X', 'M_XP', 'T_XP', 'O_XP', 3, 3), 20000, 2, 1)], 4),
 }
 OVRS = [[], [('a', 2)], [('n', 1)], [('a', 0), ('n', 3)]]
 
@@ -119,16 +120,17 @@ def main(tier):
     cfgs, maxlen = CONFIGS[tier]
     hists = histories(rep, wd, maxlen)
     jobs = []
-    for name, consts, budget in cfgs:
+    for name, consts, budget, hlen, novr in cfgs:
         progs = passes.enumerate_programs(rep, name, passes.ast_cfg(*consts), wd)
         rep.cov.setdefault('enumerated_programs', {})[name] = len(progs)
         if len(progs) > budget:
             progs = rng.sample(progs, budget)
             rep.cov['exhaustive'] = False
+        hs = [h for h in hists if len(h) <= hlen]
         for n, p in enumerate(progs):
-            for m, o in enumerate(OVRS):
+            for m, o in enumerate(OVRS[:novr]):
                 ovr = [{'v': k, 'val': project.num(v)} for k, v in o]
-                jobs.append({'id': '%s/%d/o%d' % (name, n, m), 'prog': p, 'ovr': ovr, 'hists': hists, 'flags': True})
+                jobs.append({'id': '%s/%d/o%d' % (name, n, m), 'prog': p, 'ovr': ovr, 'hists': hs, 'flags': hlen >= 3})
     for f in rep.findings:
         if 'witness' in f:
             w = f['witness']
